@@ -30,7 +30,8 @@ STATE_MEASURE = 'order type of the completion events (return/error/timeout/loss/
 PROBES = ['reply-and-deadline-both-enabled', 'reply-after-timeout', 'duplicate-reply-delivered',
           'unsolicited-reply-delivered', 'loss-with-pending-calls', 'replies-out-of-call-order',
           'sig-mismatch', 'call-issued-from-callback', 'second-connection-same-serials',
-          'identical-call-in-flight-twice', 'serial-wrap-around']
+          'identical-call-in-flight-twice', 'serial-wrap-around',
+          'hang-up-from-callback']
 COMPONENTS = {
     'real': ['txdbus.client.DBusClientConnection (callRemote, callRemoteMessage, '
              'methodReturnReceived, errorReceived, _onMethodTimeout, connectionLost, _cbCvtReply)',
@@ -217,8 +218,11 @@ def scenario(ctx):
         if any((not o.done) and o.member == member and o.sig == sig for o in calls[:-1]) and not sig:
             sim.probe('identical-call-in-flight-twice')
         c.member, c.sig = member, sig
+        # addressed by well-known or by unique name; the answers come from the peer or from the
+        # bus daemon on its behalf (the scripted daemon signs them org.freedesktop.DBus)
+        dest = SVC_DEST if ds.flag(0.7) else ':1.77'
         d = rig.call(cl.callRemote, '/svc', member, interface=SVC_IFACE,
-                     destination=SVC_DEST, signature=sig or None, body=body, **kw)
+                     destination=dest, signature=sig or None, body=body, **kw)
         c.obs = Obs(sim, cid, sink).watch(d)
         new = [t for t in sim.timers if id(t) not in before]
         if len(rig.sent) != nsent + 1:
@@ -255,6 +259,16 @@ def scenario(ctx):
                         stashed.append(v)
                 return None
             d.addBoth(chain)
+        elif forced is None and not scripted and ds.flag(0.05):
+            # user code hanging up from inside the completion callback: replies already received
+            # in the same read still belong to their calls
+            def hangup(result):
+                if cl.transport.state == net.OPEN:
+                    sim.probe('hang-up-from-callback')
+                    sim.log('op', 'hang-up-from-callback')
+                    cl.disconnect()
+                return None
+            d.addBoth(hangup)
 
     def complete(c, how):
         c.done = how
